@@ -96,6 +96,74 @@ theorem operands_local {s : Bytes} {app : App} (h : parse s = .ok app) (j : Nat)
 example : decodeLine (ascii "  sb $t0, -4(sp) # store") = .ok (some (.sb_ { rs := 5, offset := -4#32, rd := 2 })) := by rfl
 example : decodeLine (ascii "sh t0, 4, t1") = .ok (some (.sh_ { rs := 5, offset := 4#32, rd := 6 })) := by rfl
 
+/-- Registers are decoded by name: each of the 32 ABI names denotes its register, with or
+without a leading `$`. -/
+theorem register_by_name (r : Nat) (h : r < 32) :
+    parseRegister (regName r) = .ok r ∧ parseRegister (0x24 :: regName r) = .ok r :=
+  ⟨Proofs.Parser.parseRegister_regName h, Proofs.Parser.parseRegister_dollar h⟩
+
+/-- … and nothing else is a register (no upper case, no `x5`, no `$$t0`). -/
+theorem register_only_names {s : Bytes} {r : Nat} (h : parseRegister s = .ok r) :
+    r < 32 ∧ (s = regName r ∨ s = 0x24 :: regName r) :=
+  Proofs.Parser.parseRegister_only h
+
+example : regName 5 = ascii "t0" ∧ regName 27 = ascii "s11" ∧ regName 0 = ascii "zero" := ⟨rfl, rfl, rfl⟩
+example : parseRegister (ascii "T0") = .error (.err "reg") := by rfl
+
+/-- Immediates are decoded by decimal value: a string of decimal digits denotes its value,
+provided it fits an `int32` … -/
+theorem immediate_unsigned {ds : Bytes} (hne : ds ≠ []) (hd : ds.all isDigit = true) :
+    parseInt32 ds = if digitsVal ds ≥ 2147483648 then .error (.err "int") else .ok (BitVec.ofNat 32 (digitsVal ds)) :=
+  Proofs.Parser.parseInt32_digits hne hd
+
+/-- … a leading `+` changes nothing … -/
+theorem immediate_plus (ds : Bytes) : parseInt32 (0x2B :: ds) =
+    if ds.isEmpty || !ds.all isDigit then .error (.err "int")
+    else if digitsVal ds ≥ 2147483648 then .error (.err "int") else .ok (BitVec.ofNat 32 (digitsVal ds)) :=
+  Proofs.Parser.parseInt32_plus ds
+
+/-- … a leading `-` negates, down to -2³¹ … -/
+theorem immediate_minus (ds : Bytes) : parseInt32 (0x2D :: ds) =
+    if ds.isEmpty || !ds.all isDigit then .error (.err "int")
+    else if digitsVal ds > 2147483648 then .error (.err "int") else .ok (BitVec.ofInt 32 (-(digitsVal ds : Int))) :=
+  Proofs.Parser.parseInt32_minus ds
+
+/-- … and nothing else is an immediate (no `0x10`, no `1_000`, no blanks inside, not empty). -/
+theorem immediate_only {s : Bytes} {v : Word} (h : parseInt32 s = .ok v) :
+    (signSplit s).2 ≠ [] ∧ (signSplit s).2.all isDigit = true ∧
+      v = if (signSplit s).1 then BitVec.ofInt 32 (-(digitsVal (signSplit s).2 : Int))
+          else BitVec.ofNat 32 (digitsVal (signSplit s).2) :=
+  Proofs.Parser.parseInt32_only h
+
+/-- Every `int32` is the value of its decimal rendering. -/
+theorem immediate_roundtrip (v : Word) : parseInt32 (showImm v) = .ok v := Proofs.Parser.parseInt32_showImm v
+
+example : digitsVal (ascii "0042") = 42 ∧ showImm (-2147483648#32) = ascii "-2147483648" := ⟨rfl, rfl⟩
+example : parseInt32 (ascii "0x10") = .error (.err "int") ∧ parseInt32 (ascii "1_000") = .error (.err "int") ∧
+    parseInt32 (ascii "2147483648") = .error (.err "int") ∧ parseInt32 (ascii "-0") = .ok 0#32 := ⟨rfl, rfl, rfl, rfl⟩
+
+/-- Round trip, one instruction: the canonical text of any printable instruction (registers
+0…31, printable label, empty forward slot — all 45 structs, all registers, all 2³² immediates)
+decodes to exactly that instruction: each operand position lands in the Go field the printer
+took it from. -/
+theorem decode_pretty (i : Gen.Instr) (h : WfInstr i = true) : decodeLine (prettyInstr i) = .ok (some i) :=
+  Proofs.Parser.decodeLine_of_classify (Proofs.Parser.prettyInstr_spec i h).1
+
+/-- Round trip, whole program: the canonical text of a printable program parses back to the same
+instructions and the same label map (compared as a map: Go maps are unordered). -/
+theorem parse_pretty (app : App) (h : WfApp app = true) :
+    ∃ app', parse (pretty app) = .ok app' ∧ app'.instrs = app.instrs ∧
+      ∀ key, app'.labels.find? key = app.labels.find? key :=
+  Proofs.Parser.parse_pretty app h
+
+/-- a printable program with a forward reference, a backward one and a label behind the last instruction -/
+def exApp : App :=
+  { instrs := [.li_ { rd := 5, imm := 3#32 }, .beq_ { rs1 := 5, rs2 := 0, label := "end" }, .sb_ { rs := 5, offset := -4#32, rd := 2 }, .j_ { label := "loop" }]
+    labels := ⟨[("end", 16#32), ("loop", 4#32), ("main", 0#32)]⟩ }
+
+example : WfApp exApp = true := by rfl
+example : pretty exApp = ascii "main:\nli t0, 3\nloop:\nbeq t0, zero, end\nsb t0, -4(sp)\nj loop\nend:" := by rfl
+
 /-! ### (e) layout -/
 
 /-- FULL statement of clause (e): no layout edit changes the result.  FALSE of the current
